@@ -2,6 +2,9 @@
 //! Rust module per entry into OUT_DIR, plus `genmods.rs` which declares them all.
 use hydro_lang::location::Location;
 
+/// number of composer-generated flows per build
+const N_COMPOSED: usize = 32;
+
 fn main() {
     println!("cargo::rerun-if-changed=build.rs");
     let out_dir = std::env::var("OUT_DIR").unwrap();
@@ -203,6 +206,41 @@ fn main() {
     quorum!(q_resp_23, sec::q_collect_with_response, 2, 3);
     quorum!(q_resp_13, sec::q_collect_with_response, 1, 3);
     quorum!(q_unord_23, sec::q_collect_unordered, 2, 3);
+
+    // ---- seeded composer: N_COMPOSED extra flows chained from the operator table of
+    // e4_flows::compose; the program bytes come from a fixed seed (E4_COMPOSER_SEED overrides it)
+    println!("cargo::rerun-if-env-changed=E4_COMPOSER_SEED");
+    let mut composed_glue = String::new();
+    let mut composed_table = String::from("pub const COMPOSED: &[(&str, crate::glue::ExecFn, u8, &str)] = &[\n");
+    {
+        let seed: u64 = std::env::var("E4_COMPOSER_SEED").ok().and_then(|s| s.parse().ok()).unwrap_or(0xE4C0_5EED);
+        let mut state = seed;
+        let mut next = move || {
+            state = state.wrapping_add(0x9E37_79B9_7F4A_7C15);
+            let mut z = state;
+            z = (z ^ (z >> 30)).wrapping_mul(0xBF58_476D_1CE4_E5B9);
+            z = (z ^ (z >> 27)).wrapping_mul(0x94D0_49BB_1331_11EB);
+            z ^ (z >> 31)
+        };
+        for i in 0..N_COMPOSED {
+            let prog: Vec<u8> = (0..12).map(|_| (next() >> 24) as u8).collect();
+            let name = format!("cmp_{i:02}");
+            let mut flow = hydro_lang::compile::builder::FlowBuilder::new();
+            let process = flow.process::<()>();
+            let (kind, desc) = e4_flows::compose::composed(process.embedded_input("in0"), &prog);
+            emit(&out_dir, &mut names, &name, flow.with_process(&process, name.clone()).generate_embedded("e4_flows"));
+            composed_glue.push_str(&format!("exec_local!(x_{name}, {name}, [in0: i32], [out0]);\n"));
+            let k = match kind {
+                e4_flows::compose::Kind::Seq => 0,
+                e4_flows::compose::Kind::Bag => 1,
+                e4_flows::compose::Kind::SnapOne => 2,
+                e4_flows::compose::Kind::SnapOpt => 3,
+            };
+            composed_table.push_str(&format!("    (\"{name}\", x_{name}, {k}, \"{desc}\"),\n"));
+        }
+    }
+    composed_table.push_str("];\n");
+    std::fs::write(format!("{out_dir}/composed_glue.rs"), format!("{composed_glue}{composed_table}")).unwrap();
 
     let mut mods = String::new();
     for n in &names {
